@@ -24,7 +24,7 @@ CASE_TIMEOUT = 120
 
 def gen_cases(seed, tier):
     rng = np.random.default_rng([seed, 20])
-    n = 400 if tier == "quick" else 4000
+    n = 400 if tier == "quick" else 16000
     cases = []
     for i in range(n):
         kind = "fno" if rng.random() < 0.35 else "layer"
@@ -49,7 +49,7 @@ def gen_cases(seed, tier):
              "in_ch": int(rng.integers(1, 4)), "out_ch": int(rng.integers(1, 4))}
         cases.append(c)
     # resolution-consistency cases (single 1-D layer)
-    m = 150 if tier == "quick" else 1500
+    m = 150 if tier == "quick" else 6000
     for i in range(m):
         nc = int(rng.integers(4, 40))
         modes = int(rng.integers(1, 2 * nc))
